@@ -88,7 +88,7 @@ def err(v):
 
 
 class State:
-    __slots__ = ("frames", "heap", "n", "trace", "visits", "cond")
+    __slots__ = ("frames", "heap", "n", "trace", "visits", "cond", "excl")
 
     def __init__(self):
         self.frames = {}
@@ -97,6 +97,7 @@ class State:
         self.trace = ()
         self.visits = {}
         self.cond = ()
+        self.excl = {}
 
     def copy(self):
         s = State()
@@ -106,6 +107,7 @@ class State:
         s.trace = self.trace
         s.visits = dict(self.visits)
         s.cond = self.cond
+        s.excl = dict(self.excl)
         return s
 
     def fresh(self):
@@ -599,15 +601,19 @@ class Interp:
             _, ap, ty, cur = d
             vmap, head = self.variants_of(ty)
             seen = set()
+            org = _origin(cur)
+            known_not = st.excl.get(org, frozenset())
             for cv, cb in cases:
-                s2 = st.copy()
                 seen.add(cv)
                 name = vmap.get(cv) if vmap else None
+                if name is not None and name in known_not:
+                    continue        # this variant was excluded earlier on the path
+                s2 = st.copy()
                 if name is not None and ap is not None:
                     self.refine_place(s2, ap, head, name, cur)
                 s2.cond = s2.cond + (("variant", _short(head), name if name is not None else cv, _origin(cur)),)
                 out.append((s2, cb))
-            rest = [n for v, n in (vmap or {}).items() if v not in seen]
+            rest = [n for v, n in (vmap or {}).items() if v not in seen and n not in known_not]
             if vmap is None or rest:
                 s2 = st.copy()
                 if vmap is not None and len(rest) == 1 and ap is not None:
@@ -615,6 +621,8 @@ class Interp:
                     s2.cond = s2.cond + (("variant", _short(head), rest[0], _origin(cur)),)
                 else:
                     s2.cond = s2.cond + (("variant-not", _short(head), tuple(sorted(str(vmap.get(v, v)) if vmap else str(v) for v in seen)), _origin(cur)),)
+                    if vmap and org:
+                        s2.excl[org] = frozenset(known_not | set(vmap.get(v) for v in seen if vmap.get(v)))
                 out.append((s2, otherwise))
             return out
         # unknown integer / bool: a pure opaque predicate decided earlier on this path keeps its value
@@ -1164,6 +1172,25 @@ def s_reverse(I_, st, path, c, args, t, depth):
     return [(st, UNIT)]
 
 
+def s_slice_pick(kind):
+    def h(I_, st, path, c, args, t, depth):
+        items = _as_items(I_, st, args[0])
+        if items is None or any(x[0] == "splice" for x in items):
+            return None
+        if not items:
+            return [(st, NONE)]
+        if kind == "first":
+            return [(st, some(items[0]))]
+        if kind == "last":
+            return [(st, some(items[-1]))]
+        if kind == "split_last":
+            return [(st, some(("tup", (items[-1], ("seq", tuple(items[:-1]))))))]
+        if kind == "split_first":
+            return [(st, some(("tup", (items[0], ("seq", tuple(items[1:]))))))]
+        return None
+    return h
+
+
 def s_identity(I_, st, path, c, args, t, depth):
     return [(st, args[0])]
 
@@ -1282,6 +1309,8 @@ SUMMARIES = [(re.compile(rx), h) for rx, h in [
     (r"Iterator>::unzip$|Iterator::unzip$", s_unzip),
     (r"Extend<.*>>::extend$|Vec::<T, A>::extend_from_slice$|Vec::<T, A>::append$", s_extend),
     (r"slice::<impl \[T\]>::reverse$", s_reverse),
+    (r"slice::<impl \[T\]>::first$", s_slice_pick("first")), (r"slice::<impl \[T\]>::last$", s_slice_pick("last")),
+    (r"slice::<impl \[T\]>::split_last$", s_slice_pick("split_last")), (r"slice::<impl \[T\]>::split_first$", s_slice_pick("split_first")),
     (r"::Deref>::deref$|::DerefMut>::deref_mut$|::AsRef<.*>>::as_ref$|::Borrow<.*>>::borrow$|Vec::<T, A>::as_slice$|Vec::<T, A>::as_mut_slice$|::as_mut$|String::as_str$", s_identity),
     (r"::Clone>::clone$|::ToOwned>::to_owned$|::to_owned$|::ToString>::to_string$|::to_vec$", s_clone),
     (r"::Try>::branch$", s_try_branch),
